@@ -452,6 +452,30 @@ pub fn two_backups_one_handle(
     })
 }
 
+/// A program holds an opened `Archive` value `A` and the block directory it handed out;
+/// meanwhile the tree is backed up through a second, separately opened value `B`; then the
+/// unchanged tree is backed up through `A`. The report is that of the whole sequence, the
+/// stats are those of the backup through `A`.
+pub fn backup_through_two_handles(archive: &Path, source: &Path, opts: Opts) -> OpReport<BackupStats> {
+    run_op_rt(Rt::Current, move |m| async move {
+        let a = Archive::open(transport(archive, &None)).await?;
+        let held = a.block_dir().await?;
+        let options = || BackupOptions {
+            exclude: Exclude::nothing(),
+            max_entries_per_hunk: opts.hunk,
+            max_block_size: opts.block,
+            small_file_cap: opts.cap,
+            change_callback: None,
+            owner: true,
+        };
+        let b = Archive::open(transport(archive, &None)).await?;
+        conserve::backup(&b, source, &options(), m.clone()).await?;
+        let stats = conserve::backup(&a, source, &options(), m).await?;
+        drop(held);
+        Ok(stats)
+    })
+}
+
 /// A backup counts as "reported complete success" iff Ok, no monitor errors, stats.errors==0.
 /// (A line in the log at ERROR level is not a report here: a backup accounts for its errors
 /// in its result, its monitor and `stats.errors`, and "Ok, 0 errors" is what the user is told.)
